@@ -99,13 +99,23 @@ def run_harness(binp, test, env, wd, timeout):
     return p.stdout
 
 
-def shard_file(path, n, wd):
-    """Splits an ndjson file round-robin into at most n shards; returns [(path, lines)]."""
+def shard_file(path, n, wd, drop=()):
+    """Splits an ndjson file round-robin into at most n shards; returns
+    ([(path, lines)], all lines). Fields in drop (documentation for replays, not
+    read by the trace specification) are left out of the shards."""
     lines = open(path).read().splitlines()
-    n = max(1, min(n, (len(lines) + 199) // 200))
+    n = max(1, min(n, (len(lines) + 599) // 600))
     outs = []
+    slim = lines
+    if drop:
+        slim = []
+        for ln in lines:
+            r = json.loads(ln)
+            for f in drop:
+                r.pop(f, None)
+            slim.append(json.dumps(r, separators=(",", ":")))
     for k in range(n):
-        part = lines[k::n]
+        part = slim[k::n]
         p = os.path.join(wd, "shard-%d.ndjson" % k)
         open(p, "w").write("\n".join(part) + "\n")
         outs.append((p, len(part)))
@@ -128,15 +138,23 @@ def validate_shards(spec, cfg, shards, wd, timeout=1500, xmx="3g"):
         reps = vlib.scenario_reports(out)
         shutil.rmtree(td, ignore_errors=True)
         st, tr = vlib.tlc_stats(out)
-        return [v for _, vs in reps for v in vs], st, tr
+        ob = {a: int(b) for a, b in re.findall(r'<<"OBSERVED", "([^"]+)", (\d+)>>', out)}
+        return [v for _, vs in reps for v in vs], st, tr, ob
     par = max(1, min(len(shards), vlib.NCPU // 2))
     viols, states, trans = [], 0, 0
+    OBSERVED.clear()
     with concurrent.futures.ThreadPoolExecutor(par) as ex:
-        for v, st, tr in ex.map(one, range(len(shards))):
+        for v, st, tr, ob in ex.map(one, range(len(shards))):
             viols += v
             states += st
             trans += tr
+            for a, b in ob.items():
+                OBSERVED[a] = OBSERVED.get(a, 0) + b
     return viols, states, trans
+
+
+# counts the trace specification reports without judging them (last validate_shards call)
+OBSERVED = {}
 
 
 def rl_bytes(rl, limit=64):
@@ -225,7 +243,7 @@ def run(prop, tier):
             raise Inconclusive("harness printed no summary")
         nrec, nmodel = int(m.group(1)), int(m.group(2))
         t1 = time.time()
-        shards, lines = shard_file(outp, vlib.NCPU, wd)
+        shards, lines = shard_file(outp, max(2, vlib.NCPU // 2), wd)
         if len(lines) != nrec:
             raise Inconclusive("record file has %d lines, harness reported %d" % (len(lines), nrec))
         viols, tstates, ttrans = validate_shards("CodecTrace.tla", "CodecTrace.cfg", shards, wd)
@@ -256,6 +274,7 @@ def run(prop, tier):
             "model_cases_replayed": nmodel,
             "trace_validation": {"records": nrec, "shards": len(shards), "tlc_states": tstates, "tlc_s": round(t2 - t1, 1)},
             "violated_formulas": per,
+            "observed_not_judged": dict(OBSERVED),
             "exhaustive": False,
         }
         vlib.write_evidence(prop, tier, "exploration", cov, time.time() - t0, len(violations), [
